@@ -643,13 +643,28 @@ def job_spawn_fault(col: Collector, seed: int, tier: str, shard: int) -> None:
         col.exhaustive_parts.append("first spawn attempt refused with EAGAIN / ENOMEM / ETXTBSY / EMFILE x servers with env absent / empty / set, through the loader and the connectivity test")
 
 
-JOBS = {"hyp": job_hyp, "slow": job_slow, "shared_cmd": job_shared_cmd, "spawn_fault": job_spawn_fault}
+def job_malformed(col: Collector, seed: int, tier: str, shard: int) -> None:
+    """every malformed-configuration class x a file that defines one, two or no servers, through all three entry points"""
+    k = 0
+    for m_ in ("missing_file", "truncated", "trailing_comma", "empty", "unknown_server"):
+        for n_ in (1, 2, 0):
+            k += 1
+            if k % 4 != shard:
+                continue
+            servers = [{"name": f"srv{i}", "args": ["--stdio"], "extra": {}} for i in range(n_)]
+            case = {"servers": servers, "dirname": "d", "top_extra": {}, "ensure_ascii": True, "malformed": m_}
+            col.record(case, check(case))
+    if shard == 0:
+        col.exhaustive_parts.append("5 malformed-configuration classes x files defining 1 / 2 / 0 servers x the three entry points")
+
+
+JOBS = {"malformed": job_malformed, "hyp": job_hyp, "slow": job_slow, "shared_cmd": job_shared_cmd, "spawn_fault": job_spawn_fault}
 
 
 def jobs(tier: str):
     if tier == "quick":
-        return [("hyp", {"shard": s, "n": 8}) for s in range(16)] + [("slow", {"shard": s}) for s in range(4)] + [("shared_cmd", {"shard": s}) for s in range(3)] + [("spawn_fault", {"shard": s}) for s in range(4)]
-    return [("hyp", {"shard": s, "n": 150}) for s in range(16)] + [("slow", {"shard": s}) for s in range(4)] + [("shared_cmd", {"shard": s}) for s in range(3)] + [("spawn_fault", {"shard": s}) for s in range(4)]
+        return [("hyp", {"shard": s, "n": 8}) for s in range(16)] + [("slow", {"shard": s}) for s in range(4)] + [("shared_cmd", {"shard": s}) for s in range(3)] + [("spawn_fault", {"shard": s}) for s in range(4)] + [("malformed", {"shard": s}) for s in range(4)]
+    return [("hyp", {"shard": s, "n": 150}) for s in range(16)] + [("slow", {"shard": s}) for s in range(4)] + [("shared_cmd", {"shard": s}) for s in range(3)] + [("spawn_fault", {"shard": s}) for s in range(4)] + [("malformed", {"shard": s}) for s in range(4)]
 
 
 def shrink(signature: str, seed: int):
